@@ -413,4 +413,12 @@ MUTATIONS += [
     dict(id="w4-c20d", patch="seeded/C20d/patch.diff", expect={'C20': ['R14c:']}, allow_others=True),
     dict(id="r3j-config-list", file=TNODES, old='        config["indices"] = tuple(self.indices)', new='        config["indices"] = self.indices', expect={"C02": ["R3j:"], "C14": ["R3j:"]}),
     dict(id="r14e-numpy-scalar-into-scope", file="cirkit/templates/region_graph/algorithms/utils.py", old="            cur_v, prev_v = prev_v, int(tree[cur_v])", new="            cur_v, prev_v = prev_v, tree[cur_v]", expect={"C16": ["R14e:"]}),
+    # ---- wave-5 rules: reverted repairs must be reported again, behaviour-preserving twins stay silent
+    dict(id="r10j-reset-skips-sub-modules", file="cirkit/backend/torch/circuits.py", old="            for sub_l in l.sub_modules.values():\n                reset_layer_parameters(sub_l)\n", new="", expect={"C17": ["R10j:"], "C19": ["R10j:"]}),
+    dict(id="r8-overlap-guard-removed", file=FUN, old="        if sc1.layer_scope(l1) != sc2.layer_scope(l2):\n            raise NotImplementedError(", new="        if False:\n            raise NotImplementedError(", expect={"C04": ["R8:cirkit.symbolic.functional.multiply:overlap-different-scope"], "C09": ["overlap-different-scope"]}),
+    dict(id="r14f-view-of-einsum", file="cirkit/backend/torch/layers/optimized.py", old="        return y.reshape(y.shape[0], y.shape[1], self.num_output_units)", new="        return y.view(y.shape[0], y.shape[1], self.num_output_units)", expect={"C02": ["R14f:"], "C04": ["R14f:"]}),
+    dict(id="q-r14f-contiguous-view", quiet=True, file="cirkit/backend/torch/layers/optimized.py", old="        return y.reshape(y.shape[0], y.shape[1], self.num_output_units)", new="        return y.contiguous().view(y.shape[0], y.shape[1], self.num_output_units)", expect={}),
+    dict(id="q-r7e-outputs-loop", quiet=True, file=FUN, old="        output_blocks.extend(layers_to_block[sl] for sl in sc.outputs)", new="        for out_sl in sc.outputs:\n            output_blocks.append(layers_to_block[out_sl])", expect={}),
+    dict(id="q-r13e-keyed-dict", quiet=True, file=FUN, old="            obs_ndarray = np.array([obs[var] for var in sorted(sl.scope)])", new="            layer_obs = {var: obs[var] for var in sl.scope}\n            obs_ndarray = np.array([layer_obs[var] for var in sorted(sl.scope)])", expect={}),
+    dict(id="q-r11g-backward-equality-mask", quiet=True, file="cirkit/backend/torch/utils.py", old="        return torch.nan_to_num(grad_output / x.conj())", new="        is_zero = x == 0\n        grad = grad_output / torch.where(is_zero, torch.ones_like(x), x).conj()\n        return torch.where(is_zero, torch.zeros_like(grad), grad)", expect={}),
 ]
